@@ -1,5 +1,5 @@
 """C03 — faces are reciprocal: stored once, listed by both sides; periodic faces in reciprocal pairs (storage/label half)."""
-from . import rules, faces, grid
+from . import rules, faces, grid, surfaces
 from .. import smt, runner, extract
 
 
@@ -17,11 +17,16 @@ def run(tier, seed):
     obs += [x for x in o5 if "neighbour_is_generator_plus_shift" in x.name or x.expect_sat]; fns += [{"fn": u.label, "slice_sha": u.sha} for u in u5]
     smt.discharge_all(obs, tier)
     results = [runner.from_smt(o) for o in obs]
+    # the geometric half (same area and centroid from both sides, opposite normals) is NOT decided by any contract in reach: bounded stand-in
+    npairs, rb = surfaces.reciprocity_probe(seed, 40 if tier == "quick" else 400)
+    results.append(surfaces.result("C03.bounded.real_faces_agree_from_both_sides", "Voronoi::build_partial with cell i resp. cell j selected (public API, real crate)",
+                                   "%d faces of random 1D/2D/3D tessellations (2..5 generators, periodic and not) compared between the two single-cell builds", npairs, rb))
     meta = {
         "level": "proof", "functions": fns,
         "assumptions": ["A-REAL for the exact-zero tests of the shift mapping (== 0. is exact in f64 as well)",
                         "the two cells of an unshifted face see exactly negated normals (IEEE negation symmetry of dx/dist) - used for 'valid dimensionality agrees on both sides'",
-                        "geometric half (equal area / centroid / opposite normal from both sides, 'cell j has the face at all') needs the two float constructions to agree = C01: not claimed",
+                        "geometric half (equal area / centroid / opposite normal from both sides, 'cell j has the face at all') needs the two float constructions to agree = C01: NOT proved, "
+                        "covered by a BOUNDED stand-in on the real crate only",
                         "Voronoi::finalize linking faces to left and unshifted right: proved under C12 (Verus), not repeated here"],
         "trusted_base": ["vx (syn 2 dump)", "vlib/symex.py", "z3 4.8.12 / z3 5.1 / cvc5 1.0"],
         "explanation": "should_construct_face sliced from from_convex_cell: for every pair i != j of constructed cells an unshifted face is emitted by exactly one side "
